@@ -2,7 +2,7 @@ SPECIFICATION LiveSpec
 CONSTANTS
   Defects = {"BatchNoDemand", "DoubleComplete"}
   StageSet = {"Inc", "Even", "Dup", "Rep", "Err3", "BSum2"}
-  MaxK = 3
+  MaxK = 2
   InsKind = "t"
 CHECK_DEADLOCK FALSE
 INVARIANTS NoEmitWithoutDemand Conservation SinkTerminalOnce CompleteOncePerLink CompletedCorrectly ErrorCorrectly BufBound NoStuck
